@@ -23,6 +23,19 @@ func EvaluateUpdate(q sql.UpdateStatementSearched, rm RelationManager) error {
 		return err
 	}
 
+	// every SET column is a column of the table and is set once, whether or
+	// not the statement selects a row
+	for i, set := range q.Set {
+		if _, err := storage.Fields(fields).LookupFieldIdx(set.ObjectColumn); err != nil {
+			return err
+		}
+		for _, prev := range q.Set[:i] {
+			if prev.ObjectColumn == set.ObjectColumn {
+				return fmt.Errorf("%w: %s", storage.ErrFieldAmbiguous, set.ObjectColumn)
+			}
+		}
+	}
+
 	if q.Where != nil {
 		rows, err = filterRows(q.Where.(sql.WhereClause), fields, rows)
 		if err != nil {
